@@ -193,6 +193,22 @@ def endtoend(chk):
     pyprog.drop_module(mod)
 
 
+def gen_handlers(rng, fam):
+    import treegen
+    hs = []
+    for _ in range(rng.choice([1, 1, 2])):
+        kind = rng.choice(["immediate", "immediate", "override", "total"])
+        sel = treegen.gen_level(rng, fam, rng.randrange(0, 3), kind != "total", conds=True, tags=False)
+        # force at least one condition
+        if "=" not in sel and "~" not in sel:
+            sel = sel.replace("(", "(%s=%d, " % (rng.choice(treegen.VARS), rng.randrange(0, 6)), 1).replace(", )", ")")
+        if kind == "override":
+            hs.append({"kind": "immediate", "selector": sel, "intercept": {"o": "const", "v": 9}})
+        else:
+            hs.append({"kind": kind, "selector": sel, "trigger": kind == "immediate"})
+    return hs
+
+
 def run(chk):
     chk.cov["rule"] = (
         "arithmetic: the integer box [-B,B] (None included for optional arguments) enumerated "
@@ -207,6 +223,10 @@ def run(chk):
     ]
     arithmetic(chk)
     endtoend(chk)
+    # runtime model M3 vs implementation on call trees with value conditions at several stack levels
+    from props import c03
+    nf, nc = (3, 100) if chk.tier == "quick" else (16, 400)
+    c03.run_cases(chk, nf, nc, gen_handlers, None, label="tree_conditions")
 
 
 def replay(chk, path):
